@@ -344,7 +344,7 @@ def run_unit(scratch, prop, unit, exp, tier):
         prim = [s for s in spans if s.get("is_primary")] or spans
         line = prim[0]["line_start"] if prim else 0
         fn = None
-        for s in spans:
+        for s in prim + spans:
             fn = fn or fn_at(fn_lines, s["line_start"])
         snippet = (prim[0]["text"][0]["text"].strip() if prim and prim[0].get("text") else "")[:160]
         if any(msg.startswith(f) or f in msg for f in FAIL_MSGS) and fn:
@@ -373,7 +373,7 @@ def run_unit(scratch, prop, unit, exp, tier):
             st = "failed"
         elif hard:
             st = "not-checked"
-        elif full_candidates and not all(verdict.get(f, False) for f in full_candidates):
+        elif len(full_candidates) == 1 and not verdict.get(full_candidates[0], False):
             st = "failed"
         elif not vresults.get("success") and not full_candidates:
             st = "not-checked"
